@@ -175,4 +175,4 @@ def run(rep, tier, seed, replay=None):
         evidence_case(rep, cs, seed, i)
     for i in range(m):
         concat_case(rep, cs, seed, i)
-    cs.run(shard=max(4, (n + m) // 14))
+    cs.run(shard=max(4, 50 // 14))  # shard size of the quick tier: thorough runs use more files, not longer ones
